@@ -433,6 +433,69 @@ exec_hops(const vcase *vc, bool raw)
 			}
 			if (m)
 				nng_msg_free(m);
+		} else if (n == "jamout") { // jamout hop n : n large sends while the wire peer does not read (the pipe is busy, senders wait), then the peer drains
+			uint32_t h = (uint32_t) vop_arg(o, 0, 1);
+			int      cnt = (int) vop_arg(o, 1, 3);
+			if (cnt < 1 || cnt > 6 || h < 1 || h > 0xfd)
+				continue;
+			if (attached) {
+				rp_close(&P);
+				attached = false;
+				vs_settle();
+			}
+			rp_socket_sndbuf = 1; // minimal kernel buffer on nng's end: a peer that does not read stalls the pipe
+			attach();
+			rp_socket_sndbuf = 0;
+			struct Snd {
+				nng_aio *aio;
+				uint32_t tag;
+			};
+			std::vector<Snd> snd;
+			for (int q = 0; q < cnt; q++) {
+				Snd S;
+				S.tag = tag++;
+				H_OK(nng_aio_alloc(&S.aio, NULL, NULL));
+				nng_msg *m = h_msg(S.tag, 20000);
+				if (raw)
+					nng_msg_header_append_u32(m, h);
+				nng_aio_set_msg(S.aio, m);
+				nng_socket_send(a, S.aio);
+				vs_settle();
+				snd.push_back(S);
+			}
+			int waiting = 0;
+			for (auto &S : snd)
+				if (nng_aio_busy(S.aio))
+					waiting++;
+			if (waiting >= 1)
+				vr_tag("sender_waited_behind_busy_pipe");
+			// now the peer reads everything: every frame carries the incremented hop, bodies intact and in order
+			size_t got = 0;
+			for (int round = 0; round < 400 && got < snd.size(); round++) {
+				vs_settle();
+				uint8_t *pl;
+				size_t   pn;
+				int      g = rp_recv_msg(&P, &pl, &pn);
+				VR_CHECK(g >= 0, "C08:wire-frame", "malformed frame on the wire");
+				if (g == 0) {
+					vs_sleep(1);
+					continue;
+				}
+				VR_CHECK(pn == 8 + 20000, "C08:wire-frame", "frame of %zu bytes, expected hop word + 20004-byte body", pn);
+				uint32_t want = raw ? h + 1 : 1;
+				VR_CHECK(be32(pl) == want, "C08:hop-not-incremented", "message %zu of %zu sent behind a busy pipe carries hop %u on the wire, expected %u", got + 1, snd.size(), be32(pl), want);
+				VR_CHECK(be32(pl + 4) == snd[got].tag, "C08:lost-or-reordered", "frame %zu carries body %x, expected %x", got + 1, be32(pl + 4), snd[got].tag);
+				for (size_t q = 8; q < pn; q++)
+					VR_CHECK(pl[q] == (uint8_t) (snd[got].tag * 31 + (q - 8) * 7), "C08:wire-body", "body corrupted at offset %zu", q - 8);
+				free(pl);
+				got++;
+			}
+			VR_CHECK(got == snd.size(), "C08:lost-message", "%zu of %zu messages sent behind a busy pipe never reached the wire", snd.size() - got, snd.size());
+			for (auto &S : snd) {
+				nng_aio_wait(S.aio);
+				VR_CHECK(nng_aio_result(S.aio) == 0, "C08:send-code", "blocked send -> %d", nng_aio_result(S.aio));
+				nng_aio_free(S.aio);
+			}
 		} else if (n == "out") { // cooked send: wire hop must be 1
 			if (raw)
 				continue;
@@ -511,8 +574,9 @@ genOpHops()
 {
 	return gen::exec([]() {
 		std::ostringstream o;
-		int k = *gen::weightedElement<int>({{12, 0}, {2, 1}, {3, 2}, {4, 3}});
+		int k = *gen::weightedElement<int>({{12, 0}, {2, 1}, {3, 2}, {4, 3}, {2, 4}});
 		switch (k) {
+		case 4: o << "jamout " << *gen::element(1, 2, 7, 14, 200) << " " << *pbt::range<int>(2, 5); break;
 		case 0: {
 			uint32_t w = *gen::weightedOneOf<uint32_t>({
 			    {8, gen::map(pbt::range<int>(0, 17), [](int v) { return (uint32_t) v; })},
